@@ -314,7 +314,7 @@ for _oid, _h, _tier, _what, _b in (
         ("O4swap", "c09_o4_swap", "quick", "swap (both indices checked before either byte moves)", "4+3"),
         ("O4reverse", "c09_o4_reverse", "thorough", "reverse of a sub-range", "4+3"),
         ("O4clone", "c09_o4_clone", "thorough", "clone (new handle is the freed slot or a fresh one, never a live buffer; copy equals the source)", "4+3"),
-        ("O4resize", "c09_o4_resize", "thorough", "resize to an accepted size 1..=6 (prefix kept, growth zero-filled) or a refused size (<= 0, non-int, above MAX_ALLOC); accepted sizes 7..MAX_ALLOC are outside the bound", "4+3"),
+        ("O4resize", "c09_o4_resize", "thorough", "resize to an accepted size 1..=6 (prefix kept, growth zero-filled) or a refused size (<= 0, non-int, above MAX_ALLOC = 2^28); accepted sizes 7..=2^28 are outside the bound", "4+3"),
         ("O4equals", "c09_o4_equals", "quick", "equals (reads only; both handles must be live)", "3+3")):
     ob("C09", _oid, "runtime", "shell.rs", _h, path=SHELL_PATH + _h, tier=_tier, timeout=1800, args=(["--default-unwind", "10"] if _b == "9+3" else U7),
        what="byte buffers, %s: a legal access reads/writes exactly the addressed bytes; out of range, negative, straddling, freed or never-issued handles and non-numeric values are errors that change no byte of any buffer" % _what,
